@@ -3,6 +3,7 @@ package sym
 import (
 	"fmt"
 	"go/types"
+	"net/textproto"
 	"sort"
 	"strings"
 
@@ -268,6 +269,19 @@ func registerNatives(e *Engine) {
 		}
 		return ex.deepEqual(a.V, b.V)
 	}
+	n["net/http.CanonicalHeaderKey"] = func(ex *Exec, site ssa.Instruction, args []Value) Value {
+		s := args[0].(*Str)
+		if s.K != strConc {
+			ex.fail("CanonicalHeaderKey of symbolic string")
+		}
+		return ex.concStr(textproto.CanonicalMIMEHeaderKey(s.C))
+	}
+	flagVar := func(ex *Exec, site ssa.Instruction, args []Value) Value {
+		// flag.String(name, value, usage) and friends: a pointer to the default value
+		t := site.(ssa.Value).Type().(*types.Pointer).Elem()
+		return Ptr{Obj: ex.newObj(t, args[1])}
+	}
+	n["flag.String"], n["flag.Bool"], n["flag.Int"], n["flag.Duration"], n["flag.Uint"], n["flag.Uint64"] = flagVar, flagVar, flagVar, flagVar, flagVar, flagVar
 	n["time.Now"] = func(ex *Exec, site ssa.Instruction, args []Value) Value {
 		ex.fail("UNMODELLED callee time.Now (harness must supply a clock model)")
 		return nil
